@@ -5,6 +5,7 @@ package main
 
 import (
 	"go/ast"
+	"reflect"
 	"go/token"
 	"go/types"
 
@@ -110,6 +111,9 @@ func contains(n, target ast.Node) bool {
 
 // Locate finds the CFG point of the node that contains target.
 func (g *Graph) Locate(target ast.Node) (Point, bool) {
+	if target == nil || isNilNode(target) {
+		return Point{g.C.Blocks[0], 0}, false
+	}
 	var best Point
 	var bestLen token.Pos = -1
 	for _, b := range g.C.Blocks {
@@ -461,3 +465,8 @@ func children(n ast.Node, f func(ast.Node)) {
 }
 
 type cfgBlock = cfg.Block
+
+func isNilNode(n ast.Node) bool {
+	v := reflect.ValueOf(n)
+	return v.Kind() == reflect.Ptr && v.IsNil()
+}
